@@ -1,0 +1,61 @@
+//go:build verif
+
+// Contracts for the gocv verifier (comment-only file; see /verif/DESIGN.md §4).
+package fallback
+
+// chan struct{}: primDone / primFailed / ctx.Done(): never sent on, only closed.
+//@ chanmsg struct{} (v): false
+// Result channel: an answer or nil ("finished without an answer"); never closed.
+//@ chanmsg *dns.Msg (v) noclose: v != nil ==> noOPT(v.Extra) && okRRs(v.Extra)
+
+//@ type fallback
+//@   immutable logger, primary, secondary, fastFallbackDuration, alwaysStandby
+//@   invariant self.logger != nil && self.primary != nil && self.secondary != nil
+
+//@ func makeDdlCtx [C20]
+//@   requires ctx != nil
+//@   ensures result_0 != nil && result_1 != nil
+//@   ensures calls(ctxWithDeadline) == 1 && (ret(ctxDeadline, 0, 1) ==> arg(ctxWithDeadline, 0, 1) == ret(ctxDeadline, 0, 0))
+
+// Primary worker (C20): runs the primary on its own copy; reports exactly one result; an answer
+// is reported only after primDone was closed, "no answer" only after primFailed was closed.
+//@ func (f *fallback) doFallback$1 [C20]
+//@   log primWorker
+//@   requires f != nil && ctx != nil && qCtxP != nil && qCtxP.resp == nil && respChan != nil && primDone != nil && primFailed != nil
+//@   modifies *
+//@   ensures calls(entryExec) == 1 && arg(entryExec, 0, 0) == f.primary && arg(entryExec, 0, 2) == qCtxP
+//@   ensures calls(chanSend) == 1 && arg(chanSend, 0, 0) == respChan && calls(chanClose) == 1 && callpos(chanClose, 0) < callpos(chanSend, 0)
+//@   ensures arg(chanSend, 0, 1) != nil ==> ret(entryExec, 0) == nil && arg(chanClose, 0, 0) == primDone
+//@   ensures arg(chanSend, 0, 1) == nil ==> arg(chanClose, 0, 0) == primFailed
+//@   ensures ret(entryExec, 0) != nil ==> arg(chanSend, 0, 1) == nil
+
+// Secondary worker (C20): without always_standby it starts only after the primary failed or the
+// threshold timer fired (never after primDone); with always_standby it runs at once but releases
+// an answer only after the primary failed, the timer fired or the deadline passed — an answer is
+// NOT released once the primary is known to have answered. At most one result is reported.
+//@ func (f *fallback) doFallback$2 [C20]
+//@   log secWorker
+//@   requires f != nil && ctx != nil && qCtxS != nil && qCtxS.resp == nil && respChan != nil && primDone != nil && primFailed != nil && primDone != primFailed
+//@   modifies *
+//@   ensures calls(entryExec) <= 1 && calls(chanSend) <= calls(entryExec) && calls(GetTimer) == 1 && calls(ReleaseTimer) == 1
+//@   ensures calls(entryExec) == 1 ==> arg(entryExec, 0, 0) == f.secondary && arg(entryExec, 0, 2) == qCtxS
+//@   ensures !f.alwaysStandby && calls(entryExec) == 1 ==> callpos(chanRecv, 0) >= 0 && callpos(chanRecv, 0) < callpos(entryExec, 0) && (arg(chanRecv, 0, 0) == primFailed || arg(chanRecv, 0, 0) == timer.C)
+//@   ensures !f.alwaysStandby && calls(chanRecv) >= 1 && arg(chanRecv, 0, 0) == primDone && arg(chanRecv, 0, 0) != timer.C ==> calls(entryExec) == 0
+//@   ensures calls(chanSend) == 1 ==> arg(chanSend, 0, 0) == respChan && (ret(entryExec, 0) != nil ==> arg(chanSend, 0, 1) == nil)
+//@   ensures f.alwaysStandby && calls(chanSend) == 1 && arg(chanSend, 0, 1) != nil ==> lastpos(chanRecv) > callpos(entryExec, 0) && (lastarg(chanRecv, 0) == primFailed || lastarg(chanRecv, 0) == timer.C || lastarg(chanRecv, 0) == ret(makeDdlCtx, 0, 0).Done())
+
+// doFallback (C20): both workers get their own copy of the query context, made before they start;
+// the caller takes the first non-nil result of at most two, reports an error only when two
+// workers reported "no answer" or its context ended.
+//@ func (f *fallback) doFallback [C20]
+// (Stated for the usual case that no response is present yet when the fallback starts.)
+//@   requires f != nil && ctx != nil && qCtx != nil && qCtx.query != nil && qCtx.resp == nil
+//@   modifies *
+//@   ensures calls(ctxCopy) == 2 && calls(primWorker) == 1 && calls(secWorker) == 1
+//@   ensures callpos(ctxCopy, 0) < callpos(primWorker, 0) && callpos(ctxCopy, 1) < callpos(secWorker, 0)
+//@   ensures result == nil ==> calls(SetResponse) == 1 && arg(SetResponse, 0, 1) == lastret(chanRecv, 0) && lastret(chanRecv, 0) != nil
+//@   ensures result != nil ==> calls(SetResponse) == 0
+//@   loop 0:
+//@     invariant 0 <= i && i <= 2 && f != nil && ctx != nil && qCtx != nil && respChan != nil
+//@     each iter_calls(chanRecv) == 1 && iter_arg(chanRecv, 0, 0) == respChan && iter_ret(chanRecv, 0, 0) == nil && iter_calls(SetResponse) == 0
+//@     decreases 2 - i
